@@ -438,6 +438,21 @@ pub fn record(seed: u64, tier: &str, out_path: &str) {
             events += 1;
         }
     }
+    // the frame magic handed to the MESSAGE decoder (a caller that forgot to strip the frame, a datagram cut short): the bare
+    // eight bytes, every prefix of a framed message, the magic twice, the magic in front of an unframed message
+    {
+        let msg = rc::ref_encode(&[(rc::NONC, vec![5u8; 32]), (rc::PAD, vec![0u8; 8])]);
+        let framed = rc::ref_frame(&msg);
+        let mut inputs: Vec<Vec<u8>> = (0..=framed.len().min(40)).map(|k| framed[..k].to_vec()).collect();
+        inputs.push(framed.clone());
+        inputs.push([b"ROUGHTIM".to_vec(), b"ROUGHTIM".to_vec()].concat());
+        inputs.push([b"ROUGHTIM".to_vec(), msg.clone()].concat());
+        inputs.push([b"ROUGHTIM".to_vec(), vec![0xffu8; 4]].concat());
+        for b in inputs {
+            writeln!(out, "{}", event_of(&b, "magic", None)).unwrap();
+            events += 1;
+        }
+    }
     // boundary lengths
     for len in [0usize, 1, 2, 3, 4, 5, 7, 8, 65_532, 65_536] {
         let b = vec![0u8; len];
